@@ -560,6 +560,7 @@ func (c *checker) run(only string) int {
 		if c.trace {
 			cfg.Workers = 1
 		}
+		cfg.ProfileInit = os.Getenv("VERIF_PROFILE_INIT") != ""
 		rep := symgo.Explore(prog, cfg)
 		outs = append(outs, entryOut2{e, rep})
 		if c.verbose {
